@@ -2,6 +2,7 @@ import NbioVerif.Lemmas.WsRfcMain
 import NbioVerif.Lemmas.RfcBridge
 import NbioVerif.Lemmas.WsUpProof
 import NbioVerif.Lemmas.C13Table
+import NbioVerif.Lemmas.WsReadLimit
 /-! C13 — WebSocket frame validation follows RFC 6455.
 
     Specification: `Rfc.run` over `Rfc.decode` (Model/Rfc6455.lean), an independent transcription of RFC 6455 §5.1, §5.2,
@@ -102,6 +103,26 @@ theorem run_strict (rg : Rfc.Cfg) : ∀ (fs : List Rfc.Frame) (st : Rfc.St) (i :
     have ih' := fun st i evs => ih st i evs (fun f hf => h f (List.mem_cons_of_mem _ hf))
     rw [Rfc.run, Rfc.run, hdrCheck_strict rg st f (h f (List.mem_cons_self ..))]
     simp only [ih']
+
+/-- C13 under a read limit (`Engine.ReadLimit > 0`, the case `c13_partial` leaves out): for every segmentation, either no
+    Parse call is refused by the read-limit test, and then Parse agrees with the RFC predicate on the whole input exactly as
+    in `c13_partial`; or there is a first call `seg` whose data would bring the retained bytes above the limit (`OverRL`):
+    that call fails the connection with `ErrTooLong` and adds no delivery or reply, and up to it — on the segments `pre` —
+    the endpoint did what the RFC predicate says for the bytes of `pre`.  So a read limit adds exactly one kind of refusal,
+    of a Parse call as a whole, and never changes the verdict on, or the events of, what was parsed before it.
+    (`g.noRL` = `g` with `readLimit := 0`; `Agree`'s rendering of events does not look at the read limit.) -/
+theorem c13_readlimit (g : Cfg) (e : Env) (infl : Bytes → Rfc.TInfl) (hinfl : InflAgrees g e infl) (segs : List Bytes) :
+    Agree g.noRL e 0 (feed g e {} segs [])
+      (Rfc.run (rfcCfg g infl) {} 0 [] (Rfc.decode (segs.flatten.length + 1) segs.flatten)) ∨
+    ∃ pre seg post, segs = pre ++ seg :: post ∧ OverRL g (feed g.noRL e {} pre []).s seg ∧
+      (feed g e {} segs []).err = some .tooLong ∧ (feed g e {} segs []).acts = (feed g.noRL e {} pre []).acts ∧
+      (feed g.noRL e {} pre []).err = none ∧
+      Agree g.noRL e 0 (feed g.noRL e {} pre [])
+        (Rfc.run (rfcCfg g infl) {} 0 [] (Rfc.decode (pre.flatten.length + 1) pre.flatten)) := by
+  have hi : InflAgrees g.noRL e infl := hinfl
+  rcases feed_readLimit g e segs {} [] with h | ⟨pre, seg, post, h1, h2, h3, h4⟩
+  · left; rw [h]; exact c13_partial g.noRL e infl hi rfl segs
+  · right; exact ⟨pre, seg, post, h1, h3, by rw [h4], by rw [h4], h2, c13_partial g.noRL e infl hi rfl pre⟩
 
 /-- C13 at full strength on correctly masked input: when every frame is masked the way §5.1 demands for the receiving
     role, Parse agrees with the RFC predicate that does enforce the masking direction -/
